@@ -141,7 +141,9 @@ def run(ctx, prop=None):
     for cid, step, evk, kind in mism:
         cid, step, evk = int(cid), int(step), int(evk)
         # a hand-off the model does not allow is also a status entry from nowhere (C02)
-        if kind in rel or (prop == "C02" and kind == "KProto" and evk in (5, 12)):
+        # ... and a status handed off where the model expects the traversal to go on to the next node means that node k+1 was
+        # not invoked although node k passed the event on (C01)
+        if kind in rel or (prop == "C02" and kind == "KProto" and evk in (5, 12)) or (prop == "C01" and kind == "KProto" and evk in (5, 6)):
             by_case.setdefault(cid, []).append((step, evk, kind))
         else:
             others[kind] = others.get(kind, 0) + 1
